@@ -50,6 +50,12 @@ def check(ctx):
     rs = returns(ng)
     ok = len(rs) == 2 and {unparse(r.value) for r in rs} == {"tuple((nested_get(i, coll) for i in ind))", "coll[ind]"}
     ctx.ob("SIB.nested-get.shape", ng, "nested_get: list -> tuple of nested_get of every element; anything else -> lookup", ok, "" if ok else "a shortcut decides from the first element only: requests that mix keys and sub-lists at one level fail or lose their nesting")
+    # ---------------- a requested key that is released early (C03) makes the schedulers disagree (KeyError vs value)
+    from .C03 import check as _c03_check
+    from .C08 import converter_unhashable
+
+    _c03_check(ctx)
+    converter_unhashable(ctx)
 
 
 def _get_async_calls(func):
